@@ -572,6 +572,9 @@ class Emitter:
             class _B: pass
             i = _B(); i.ty = x.ty; i.a = x.a; i.b = x.b; i.bop = x.op; i.flags = set(); i.dst = None
             return s.binexpr(i)
+        if k == 'agg':   # constant first-class aggregate (e.g. `ret { double, double } { double 7.0, double 8.0 }`): built by a statement expression
+            t = s.cty(x.ty)
+            return '({ %s agg_c; __builtin_memset(&agg_c, 0, sizeof agg_c); %s agg_c; })' % (t, ' '.join(s.init_stmts('agg_c.b', 0, x)))
         raise ValueError('value kind %s' % k)
 
     def gname(s, n): return 'g_' + cid(n) if n.startswith('@.') or n.startswith('@__PRETTY') else cid(n)
